@@ -1486,3 +1486,49 @@ def option_edges(guards, pred):
                 elif 0 in vs and 1 not in vs:
                     some.append((bi, t.otherwise))
     return some, none
+
+
+def structural_eq(facts, adt_path):
+    """is equality of the struct `adt_path` structural over all of its fields? -> (ok, detail).
+    Yes if PartialEq is derived (the compiler then also emits StructuralPartialEq); for a hand-written impl, if `eq` compares every
+    field of its two arguments with each other and calls nothing else (an impl that delegates, e.g. to `cmp`, is not recognised)."""
+    a = facts.adts.get(adt_path)
+    if a is None:
+        raise AnchorError("ADT %s not found" % adt_path)
+    traits = {i["trait"].split("<")[0]: i for i in facts.impls if i.get("self_adt") == adt_path and i.get("self_ty") == adt_path and i.get("trait")}
+    if "std::cmp::PartialEq" not in traits:
+        return False, "no PartialEq impl"
+    if "std::marker::StructuralPartialEq" in traits:
+        return True, "derived"
+    items = traits["std::cmp::PartialEq"].get("items") or []
+    eqs = [x for x in items if x.endswith("::eq")]
+    if not eqs or eqs[0] not in facts.bodies:
+        return False, "hand-written PartialEq without an analysable eq"
+    b = facts.bodies[eqs[0]]
+    p = Prov(b, facts)
+    fields = [f["name"] for f in a["variants"][0]["fields"]]
+    compared = set()
+    for bi, t in b.calls():
+        n = short(t.callee() or "")
+        if re.search(r"PartialEq(<.*>)?>?::(eq|ne)$|cmp::impls::.*::(eq|ne)$", n) and len(t.args) == 2:
+            sides = [fmt_short(p.operand(x)) for x in t.args]
+            for f in fields:
+                pat = r"^\W*\(?\*?(\w+)\)?\.%s\W*$" % re.escape(f)
+                m0, m1 = re.match(pat, sides[0]), re.match(pat, sides[1])
+                if m0 and m1 and m0.group(1) != m1.group(1):
+                    compared.add(f)
+        else:
+            return False, "hand-written eq calls %s" % n
+    for blk in b.blocks:
+        for st in blk.stmts:
+            if st.k == "a" and st.rv.k == "bin" and st.rv.j.get("op") in ("Eq", "Ne"):
+                sides = [fmt_short(p.operand(o)) for o in st.rv.ops]
+                for f in fields:
+                    pat = r"^\W*\(?\*?(\w+)\)?\.%s\W*$" % re.escape(f)
+                    m0, m1 = re.match(pat, sides[0]), re.match(pat, sides[1])
+                    if m0 and m1 and m0.group(1) != m1.group(1):
+                        compared.add(f)
+    missing = [f for f in fields if f not in compared]
+    if missing:
+        return False, "hand-written eq does not compare %s" % ", ".join(missing)
+    return True, "hand-written, compares %s" % ", ".join(fields)
